@@ -28,6 +28,9 @@ type faultyReader struct {
 	pos    int
 	chunks func() int // next chunk size (>=1)
 	errAt  int        // return errMid once pos reaches errAt (-1: never)
+	// keepOpen: the client keeps its end of the stream open until it has received the answer
+	// (a pipe or socket): after the last byte Read blocks until answered is closed
+	keepOpen chan struct{}
 }
 
 var errMid = errors.New("simulated read error: connection reset")
@@ -37,6 +40,11 @@ func (r *faultyReader) Read(p []byte) (int, error) {
 		return 0, errMid
 	}
 	if r.pos >= len(r.data) {
+		if r.keepOpen != nil {
+			simrt.Yield("jsonrun:client-waits-for-answer<")
+			<-r.keepOpen
+			simrt.Yield("jsonrun:client-waits-for-answer>")
+		}
 		return 0, io.EOF
 	}
 	n := r.chunks()
@@ -58,15 +66,19 @@ func (r *faultyReader) Read(p []byte) (int, error) {
 }
 
 type recordingWriter struct {
-	buf    bytes.Buffer
-	writes int
-	failAt int // >=0: the peer goes away after this many bytes
+	buf      bytes.Buffer
+	writes   int
+	failAt   int           // >=0: the peer goes away after this many bytes
+	answered chan struct{} // closed at the first byte of the answer (the client then closes its stream)
 }
 
 var errPeerGone = errors.New("simulated write error: broken pipe")
 
 func (w *recordingWriter) Write(p []byte) (int, error) {
 	w.writes++
+	if w.answered != nil && w.writes == 1 {
+		close(w.answered)
+	}
 	if w.failAt >= 0 {
 		room := w.failAt - w.buf.Len()
 		if room <= 0 {
@@ -353,6 +365,7 @@ type delivery struct {
 	errAt    int
 	chunky   bool
 	writerAt int // >0: the writer fails after this many bytes (the answer itself is not asserted)
+	keepOpen bool
 }
 
 func engineJSON(rc *RunCtx) *Outcome {
@@ -360,6 +373,12 @@ func engineJSON(rc *RunCtx) *Outcome {
 	w := rc.W
 	req, tag := drawRequest(w)
 	split := w.Bool(50)
+	huge := false
+	if w.Choose(60) == 59 {
+		// a very long series (more than 2^16 timesteps): only delivered complete
+		req, tag, huge = hugeRequest(w), "complete", true
+		split = w.Bool(70)
+	}
 	doc, err := json.Marshal(req)
 	if err != nil {
 		panic(err)
@@ -380,11 +399,23 @@ func engineJSON(rc *RunCtx) *Outcome {
 		ds = append(ds, delivery{what: "writer-fails", data: doc, errAt: -1, chunky: true, writerAt: 1 + rc.S.Choose(40)})
 	}
 	ds = append(ds, delivery{what: "complete", data: doc, errAt: -1, chunky: true})
+	if !huge {
+		// the client sends the complete document and waits for the answer before closing its end
+		ds = append(ds, delivery{what: "complete-stream-kept-open", data: doc, errAt: -1, chunky: true, keepOpen: true})
+	}
 	ds = append(ds, delivery{what: "trailing-garbage", data: append(append([]byte{}, doc...), []byte("\n}{ garbage 123")...), errAt: -1, chunky: true})
-	for cut := 0; cut < len(doc); cut++ {
+	for cut := 0; cut < len(doc) && !huge; cut++ {
 		ds = append(ds, delivery{what: fmt.Sprintf("truncated@%d", cut), data: doc[:cut], errAt: -1})
 	}
 	nByte := 12
+	if huge {
+		nByte = 0
+		ds = ds[:1]
+		if ds[0].what != "complete" {
+			ds = []delivery{{what: "complete", data: doc, errAt: -1, chunky: true}}
+		}
+		o.probe("request_with_more_than_65536_timesteps")
+	}
 	if rc.Tier == "thorough" {
 		nByte = 40
 	}
@@ -417,10 +448,15 @@ func engineJSON(rc *RunCtx) *Outcome {
 			o.fault(kindOf)
 			o.SubHashes = append(o.SubHashes, hashStr(d.what))
 			rd := &faultyReader{data: d.data, errAt: d.errAt, chunks: func() int { return 1 << 20 }}
+			var answered chan struct{}
+			if d.keepOpen {
+				answered = make(chan struct{})
+				rd.keepOpen = answered
+			}
 			if d.chunky {
 				rd.chunks = func() int { return 1 + rc.S.Choose(9)*rc.S.Choose(9) }
 			}
-			wr := &recordingWriter{failAt: -1}
+			wr := &recordingWriter{failAt: -1, answered: answered}
 			if d.writerAt > 0 {
 				wr.failAt = d.writerAt
 			}
@@ -491,7 +527,7 @@ func engineJSON(rc *RunCtx) *Outcome {
 				}
 				continue
 			}
-			if d.what != "complete" && d.what != "trailing-garbage" {
+			if d.what != "complete" && d.what != "trailing-garbage" && d.what != "complete-stream-kept-open" {
 				// a byte fault that left a decodable request: robustness is asserted (one
 				// document, no escape); equivalence is asserted on the undamaged document
 				continue
@@ -567,6 +603,8 @@ func engineJSON(rc *RunCtx) *Outcome {
 	case "crash":
 		site := crashSite(s.Crash.Stack)
 		o.fail("process-crash", "crash@"+site, "%s request for %s, delivery %s: panic in a cell goroutine (ow-single would die without writing a document): %s at %s\ndelivered bytes: %s", tag, req.Name, cur, s.Crash.Value, site, head64(curData, 500))
+	case "deadlock":
+		o.fail("never-answers", "never-answers/"+strings.SplitN(cur, "@", 2)[0], "delivery %s of a %s request for %s: the runner never wrote its answer (it is blocked although the complete request has been delivered); blocked: %v", cur, tag, req.Name, s.Blocked)
 	default:
 		o.fail("no-termination", s.Outcome, "%s; blocked: %v", s.Outcome, s.Blocked)
 	}
@@ -761,4 +799,20 @@ func engineJSONConc(rc *RunCtx) *Outcome {
 	}
 	o.probe("concurrent_requests_answered")
 	return o
+}
+
+// hugeRequest: a cheap multi-output model with 65536..70000 timesteps.
+func hugeRequest(w *simrt.Tape) *request {
+	n := 65536 + w.Choose(4000)
+	vals := make([]float64, n)
+	for i := range vals {
+		vals[i] = float64(i%97) / 4
+	}
+	switch w.Choose(3) {
+	case 0:
+		return &request{Name: "FixedPartition", Parameters: []reqValue{{"fraction", 0.25}}, Inputs: []reqInput{{"input", vals}}}
+	case 1:
+		return &request{Name: "EmcDwc", Parameters: []reqValue{{"EMC", 2}, {"DWC", 3}}, Inputs: []reqInput{{"quickflow", vals}, {"baseflow", vals}}}
+	}
+	return &request{Name: "Sum", Inputs: []reqInput{{"i1", vals}, {"i2", vals}}}
 }
